@@ -40,6 +40,12 @@ def call_builtin(I, name, args, kwargs, fr):
             f = I.prog.find_method(v.cls, '__len__')
             if f is not None:
                 return I.call_function(f, [v], {}, fr, self_cls=v.cls)
+        if isinstance(v, VAbsList):
+            t = p.fresh_int('len')
+            p.assume(t >= 0)
+            return VInt(t)
+        if v is VNone and fr.spec:
+            return VInt(p.fresh_int('undef'))
         if v is VNone and not fr.spec:
             I.raise_builtin('TypeError', 'len of None')
         raise OutOfSubset('len of %r' % (v,))
@@ -146,7 +152,7 @@ def call_builtin(I, name, args, kwargs, fr):
         default = args[2] if len(args) > 2 else None
         if isinstance(obj, VObj):
             if attr in obj.fields:
-                return obj.fields[attr]
+                return I.getattr(obj, attr, fr)
             if I.prog.find_method(obj.cls, attr) is None and \
                     (not isinstance(obj.cls, ClassInfo) or I.prog.find_class_attr(obj.cls, attr) is None):
                 decl = I.reg.declared_fields(obj.cls)
@@ -307,6 +313,9 @@ def call_method(I, recv, name, args, kwargs, fr):
     p = I.path
     if isinstance(recv, VSeq):
         if name == 'append' and recv.mutable:
+            if isinstance(args[0], VObj) and args[0].tag is not None and not recv.is_bytes:
+                recv.t = z3.Concat(recv.t, z3.Unit(args[0].tag))      # id list
+                return VNone
             x = I.as_int(args[0])
             if recv.is_bytes:
                 if not p.branch(z3.And(x >= 0, x <= 255), 'byte'):
@@ -420,8 +429,22 @@ def call_method(I, recv, name, args, kwargs, fr):
                     and args[0].t.as_string() == 'L':
                 return recv     # hex(...).rstrip('L'): python-3 hex() never ends in 'L'
             return VStr(p.fresh_str(name))
+    if isinstance(recv, VConst) and recv.kind == 'builtin' and recv.py == 'int' and name == 'from_bytes':
+        v = args[0]
+        bo = args[1] if len(args) > 1 else kwargs.get('byteorder')
+        signed = z3.simplify(I.truth(kwargs.get('signed', VBool(False))))
+        if not (isinstance(v, VSeq) and isinstance(bo, VStr) and z3.is_string_value(bo.t) and bo.t.as_string() == 'big'):
+            raise OutOfSubset('int.from_bytes form')
+        if z3.is_true(signed):
+            return I.call_spec('tc_val', VSeq(v.t, v.kind))
+        if z3.is_false(signed):
+            return I.call_spec('be_val', VSeq(v.t, v.kind))
+        raise OutOfSubset('int.from_bytes with symbolic signedness')
     if isinstance(recv, VConst) and recv.kind in ('hexstr', 'binstr'):
         raise OutOfSubset('method on hex()/bin() string')
+    if isinstance(recv, VAbsList):
+        if name in ('append', 'extend', 'insert', 'update', 'reverse'):
+            return VNone
     if isinstance(recv, VList):
         if name == 'append':
             recv.items.append(args[0])
@@ -464,7 +487,8 @@ def call_method(I, recv, name, args, kwargs, fr):
         if name == 'get':
             key = args[0]
             default = args[1] if len(args) > 1 else VNone
-            if p.branch(recv.has(key.t), 'map.get'):
-                return {'int': VInt, 'str': VStr, 'val': VOpaque}[recv.valkind](recv.get(key.t))
+            k = recv.key_term(I, key)
+            if k is not None and p.branch(recv.has(k), 'map.get'):
+                return recv.get(I, key)
             return default
     raise OutOfSubset('method %s on %r' % (name, recv))
